@@ -5928,6 +5928,21 @@ func (a *Agent) TaskDispatch(RequestID uint32, CommandID uint32, Parser *parser.
 											} else {
 												/* we failed to read from the portfwd */
 												logger.Error(fmt.Sprintf("Failed to read from socket %08x: %v", SocktID, err))
+
+												/* the target is gone (also when it closed cleanly): forget the socket and
+												 * tell the agent to close its side, unless the agent removed it first */
+												if a.PortFwdGet(SocktID) != nil {
+													a.PortFwdClose(SocktID)
+
+													a.AddJobToQueue(Job{
+														Command: COMMAND_SOCKET,
+														Data: []any{
+															SOCKET_COMMAND_CLOSE,
+															int32(SocktID),
+														},
+													})
+												}
+
 												return
 											}
 										}
